@@ -146,9 +146,9 @@ def isHeader (ts : List Spanned) : Bool :=
 
 /-- what the transformer does, exactly, on lines whose top-level lambdas do not nest: the head stays a
     keyword iff some free colon stands later than directly after it -/
-theorem softKw_model (t : Spanned) (ts : List Spanned) (hm : t.tok = .kw .Match ∨ t.tok = .kw .Case)
+theorem softKw_model (sos : Bool) (t : Spanned) (ts : List Spanned) (hm : t.tok = .kw .Match ∨ t.tok = .kw .Case)
     (hflat : lambdasFlat ts 0 0 = true) :
-    (softTok true t ts = t.tok) ↔ (freeColons ts 0 0 0).any (· != 0) = true := by
+    (softTok true sos t ts = t.tok) ↔ (freeColons ts 0 0 0).any (· != 0) = true := by
   have h := look_eq ts 0 0 0 false (by omega) hflat
   simp only [beq_self_eq_true, Nat.reduceBEq, Bool.false_or] at h
   rcases hm with hm | hm <;> simp only [softTok, hm, Bool.not_true, Bool.false_eq_true, if_false] <;>
@@ -156,17 +156,17 @@ theorem softKw_model (t : Spanned) (ts : List Spanned) (hm : t.tok = .kw .Match 
 
 /-- the full statement for the transformer: on every line, keyword iff the reference says header -/
 def softKw_full : Prop :=
-  ∀ (t : Spanned) (ts : List Spanned), t.tok = .kw .Match ∨ t.tok = .kw .Case →
-    ((softTok true t ts = t.tok) ↔ isHeader ts = true)
+  ∀ (sos : Bool) (t : Spanned) (ts : List Spanned), t.tok = .kw .Match ∨ t.tok = .kw .Case →
+    ((softTok true sos t ts = t.tok) ↔ isHeader ts = true)
 
 /-- the part that holds: lines without nested top-level lambdas that have at most one free colon, which is
     either directly after the head (`match: int = 1`) or the last token of the line -/
-theorem softKw_sound_partial (t : Spanned) (ts : List Spanned)
+theorem softKw_sound_partial (sos : Bool) (t : Spanned) (ts : List Spanned)
     (hm : t.tok = .kw .Match ∨ t.tok = .kw .Case) (hflat : lambdasFlat ts 0 0 = true)
     (hdom : freeColons ts 0 0 0 = [] ∨ freeColons ts 0 0 0 = [0] ∨
             (2 ≤ (lineAfter ts).length ∧ freeColons ts 0 0 0 = [(lineAfter ts).length - 1])) :
-    (softTok true t ts = t.tok) ↔ isHeader ts = true := by
-  rw [softKw_model t ts hm hflat]
+    (softTok true sos t ts = t.tok) ↔ isHeader ts = true := by
+  rw [softKw_model sos t ts hm hflat]
   unfold isHeader
   rcases hdom with h | h | ⟨h2, h⟩
   · simp [h]
@@ -181,25 +181,25 @@ private def sp (t : Tok) : Spanned := ⟨t, 0, 0, 0, 0⟩
 private def nm (s : String) : Tok := .name (s.toList.map Char.toNat)
 
 /-- `match[0]: int` — a valid annotated assignment; the transformer keeps the keyword -/
-theorem softKw_fails_subscript :
-    softTok true (sp (.kw .Match)) [sp (.op .Lsqb), sp (.int 0), sp (.op .Rsqb), sp (.op .Colon), sp (nm "int"), sp .newline]
+theorem softKw_fails_subscript (sos : Bool) :
+    softTok true sos (sp (.kw .Match)) [sp (.op .Lsqb), sp (.int 0), sp (.op .Rsqb), sp (.op .Colon), sp (nm "int"), sp .newline]
       = .kw .Match ∧
     isHeader [sp (.op .Lsqb), sp (.int 0), sp (.op .Rsqb), sp (.op .Colon), sp (nm "int"), sp .newline] = false := by
-  decide
+  cases sos <;> decide
 
 /-- `match = lambda a=lambda: 1: 2` — the boolean `seen_lambda` forgets the outer lambda -/
-theorem softKw_fails_nested_lambda :
-    softTok true (sp (.kw .Match)) [sp (.op .Equal), sp (.kw .Lambda), sp (nm "a"), sp (.op .Equal), sp (.kw .Lambda),
+theorem softKw_fails_nested_lambda (sos : Bool) :
+    softTok true sos (sp (.kw .Match)) [sp (.op .Equal), sp (.kw .Lambda), sp (nm "a"), sp (.op .Equal), sp (.kw .Lambda),
         sp (.op .Colon), sp (.int 1), sp (.op .Colon), sp (.int 2), sp .newline] = .kw .Match ∧
     freeColons [sp (.op .Equal), sp (.kw .Lambda), sp (nm "a"), sp (.op .Equal), sp (.kw .Lambda),
         sp (.op .Colon), sp (.int 1), sp (.op .Colon), sp (.int 2), sp .newline] 0 0 0 = [] := by
-  decide
+  cases sos <;> decide
 
 theorem softKw_fails : ¬ softKw_full := by
   intro h
-  have := h (sp (.kw .Match)) [sp (.op .Lsqb), sp (.int 0), sp (.op .Rsqb), sp (.op .Colon), sp (nm "int"), sp .newline]
+  have := h true (sp (.kw .Match)) [sp (.op .Lsqb), sp (.int 0), sp (.op .Rsqb), sp (.op .Colon), sp (nm "int"), sp .newline]
     (Or.inl rfl)
-  have w := softKw_fails_subscript
+  have w := softKw_fails_subscript true
   rw [w.2] at this
   exact absurd (this.mp w.1) (by decide)
 
